@@ -3,6 +3,7 @@
 package hx
 
 import (
+	"sync/atomic"
 	"context"
 	"encoding/binary"
 	"fmt"
@@ -411,4 +412,54 @@ func DumpDiff(a, b *index.VerifDump) string {
 		return fmt.Sprintf("byte counter %d vs %d", a.RawBytesSize, b.RawBytesSize)
 	}
 	return ""
+}
+
+// ConcurrentSearches runs the given queries from several goroutines at once on an index nobody writes to and judges
+// every answer by the sequential search oracle (and, when exact is set, by the bit-exact score sequence of brute
+// force): what a search returns must not depend on other searches running at the same time.
+func ConcurrentSearches(idx *index.Hnsw, sp space.Space, ref Ref, queries []amath.Vector, k uint, goroutines, reps int, exact bool) (sym, detail string, done int) {
+	type verdict struct{ sym, detail string }
+	out := make(chan verdict, goroutines)
+	var n int64
+	for g := 0; g < goroutines; g++ {
+		go func(g int) {
+			for r := 0; r < reps; r++ {
+				q := queries[(g+r)%len(queries)]
+				res, err := Search(idx, q, k)
+				atomic.AddInt64(&n, 1)
+				if err != nil {
+					out <- verdict{"error", err.Error()}
+					return
+				}
+				if s, d := CheckSearch(sp, ref, q, k, res); s != "" {
+					out <- verdict{s, d}
+					return
+				}
+				if exact {
+					bf := BruteForce(sp, ref, q)
+					want := int(k)
+					if want > len(bf) {
+						want = len(bf)
+					}
+					if len(res) != want {
+						out <- verdict{"short", fmt.Sprintf("%d items, want %d", len(res), want)}
+						return
+					}
+					for i := range res {
+						if math.Float32bits(res[i].Score) != math.Float32bits(bf[i].Score) {
+							out <- verdict{"not-nearest", fmt.Sprintf("pos %d score %v, brute force %v", i, res[i].Score, bf[i].Score)}
+							return
+						}
+					}
+				}
+			}
+			out <- verdict{}
+		}(g)
+	}
+	for g := 0; g < goroutines; g++ {
+		if v := <-out; v.sym != "" && sym == "" {
+			sym, detail = v.sym, v.detail
+		}
+	}
+	return sym, detail, int(atomic.LoadInt64(&n))
 }
